@@ -354,3 +354,33 @@ Proof.
   - intros _. left. reflexivity.
   - intros H. right. apply loop_shape. exact H.
 Qed.
+
+(* completeness of the loop: a decisive reply to a poll that was SENT in time is the outcome,
+   whatever the clock reads afterwards (no reading follows it) and whatever the script holds
+   after it; [cl1] are the readings before each of the polls up to and including the decisive one *)
+Lemma loop_decisive_in_time ceiling dl :
+  forall pre cl1 interval cl2 k rest,
+    Forall non_decisive pre -> length cl1 = S (length pre) -> Forall (fun t => (t <= dl)%Z) cl1 ->
+    snd (poll_loop true ceiling dl interval (cl1 ++ cl2) (pre ++ RDecisive k :: rest)) = OFinished k /\
+    polls (fst (poll_loop true ceiling dl interval (cl1 ++ cl2) (pre ++ RDecisive k :: rest))) = S (length pre) /\
+    last_event (fst (poll_loop true ceiling dl interval (cl1 ++ cl2) (pre ++ RDecisive k :: rest))) = Some EPoll.
+Proof.
+  induction pre as [|r pre IH]; intros cl1 interval cl2 k rest Hnd Hlen Hle.
+  - destruct cl1 as [|t [|t' cl1']]; try discriminate Hlen.
+    inversion Hle as [|? ? Ht _]; subst.
+    cbn [app poll_loop]. destruct (Z.gtb_spec t dl) as [Hgt|_]; [lia|].
+    cbn [negb process_response]. cbn. repeat split.
+  - destruct cl1 as [|t cl1']; [discriminate Hlen|].
+    inversion Hle as [|? ? Ht Hle']; subst. inversion Hnd as [|? ? Hr Hnd']; subst.
+    cbn [length] in Hlen. injection Hlen as Hlen.
+    change ((t :: cl1') ++ cl2) with (t :: (cl1' ++ cl2)).
+    change ((r :: pre) ++ RDecisive k :: rest) with (r :: (pre ++ RDecisive k :: rest)).
+    cbn [poll_loop]. destruct (Z.gtb_spec t dl) as [Hgt|_]; [lia|]. cbn [negb].
+    destruct r as [| | |k0]; try (exfalso; exact Hr); cbn [process_response];
+      match goal with |- context [poll_loop true ceiling dl ?i (cl1' ++ cl2) _] =>
+        specialize (IH cl1' i cl2 k rest Hnd' Hlen Hle');
+        destruct (poll_loop true ceiling dl i (cl1' ++ cl2) (pre ++ RDecisive k :: rest)) as [tr o] eqn:E
+      end; cbn [fst snd] in *; destruct IH as (Ho & Hp & Hl); repeat split;
+      try exact Ho; try (cbn [polls]; rewrite Hp; reflexivity);
+      try (destruct tr as [|e tr']; [discriminate Hl|]; rewrite last_event_cons3; exact Hl).
+Qed.
